@@ -14,9 +14,9 @@ EXPLANATION = ("Static analysis: for every provided view kind K and factory F th
                "violation (the two polynomials are printed).")
 
 # kinds: tag -> (C++ type in namespace vf, number of probes)
-KINDS_QUICK = ["k_inter", "k_planar", "k_xystep", "k_pT", "k_packed", "k_bits7", "k_deref", "k_virt", "k_g16step"]
+KINDS_QUICK = ["k_inter", "k_planar", "k_xystep", "k_pT", "k_packed", "k_bits7", "k_deref", "k_derefs", "k_virt", "k_g16step"]
 KINDS_ALL = ["k_inter", "k_gray16", "k_g16step", "k_rgba32f", "k_planar", "k_planar16", "k_xstep", "k_xystep", "k_xyT", "k_pstep", "k_pT",
-             "k_packed", "k_packstep", "k_bits", "k_bits7", "k_bits1", "k_bitstep", "k_nth", "k_kth", "k_deref", "k_virt"]
+             "k_packed", "k_packstep", "k_bits", "k_bits7", "k_bits1", "k_bitstep", "k_nth", "k_kth", "k_deref", "k_derefs", "k_virt"]
 NPROBE = {"k_planar": 3, "k_planar16": 3, "k_pstep": 3, "k_pT": 3}
 CHAN_KINDS = ["k_inter", "k_gray16", "k_g16step", "k_planar", "k_xstep", "k_xystep", "k_pstep", "k_xyT", "k_pT"]
 
@@ -72,7 +72,7 @@ def gen(kinds, spec, path, tier):
         # compositions F(G(v))
         for g in facs:
             for f in facs:
-                if tier == "quick" and k not in ("k_inter", "k_planar", "k_bits7", "k_virt", "k_deref", "k_xystep") and not (f["name"] == g["name"]):
+                if tier == "quick" and k not in ("k_inter", "k_planar", "k_bits7", "k_virt", "k_deref", "k_derefs", "k_xystep") and not (f["name"] == g["name"]):
                     continue
                 gw, gh = dims(g, "v.width()", "v.height()")
                 gw, gh = gw.replace("P", "q"), gh.replace("P", "q")
